@@ -11,6 +11,7 @@ import (
 	"context"
 	"errors"
 	"fmt"
+	"os"
 	"slices"
 	"strings"
 	"time"
@@ -483,6 +484,9 @@ func (t *mwTracer) TransitionEnd(tx *am.Transition) {
 	r.endStep = w.s.Step()
 	w.cur = nil
 	w.procGo = 0
+	if core.Trace {
+		fmt.Fprintf(os.Stderr, "  tx#%d END %s%v auto=%v accepted=%v %v -> %v (%v) t=%v\n", r.idx, r.typ, r.called, r.auto, r.accepted, r.before, r.activeEnd, r.machAtEnd, w.s.Now())
+	}
 	for _, f := range w.onTxEnd {
 		f(r)
 	}
@@ -507,6 +511,14 @@ func newMW(s *core.Sim, c *mwCfg, p *mwPlan, extra ...am.Tracer) *mw {
 		opts.QueueLimit = uint16(c.queueLimit)
 	}
 	w.m = am.New(w.ctx, p.schema, opts)
+	// (Opts.HandlerDeadline / HandlerBackoff do not survive am.New's option
+	// cloning, the public fields do)
+	if c.deadline > 0 {
+		w.m.HandlerDeadline = c.deadline
+	}
+	if c.backoff > 0 {
+		w.m.HandlerBackoff = c.backoff
+	}
 	if err := w.m.VerifyStates(p.order); err != nil {
 		panic(fmt.Sprint("plan: VerifyStates: ", err))
 	}
@@ -610,6 +622,13 @@ func (w *mw) handle(b int, name string, e *am.Event, final bool) bool {
 		behav = hbAccept
 	}
 	c.behav = behav
+	if core.Trace {
+		txi := -1
+		if c.tx != nil {
+			txi = c.tx.idx
+		}
+		fmt.Fprintf(os.Stderr, "  handler k=%d %s b%d tx#%d behav=%d sees %v t=%v\n", k, name, b, txi, behav, c.active, s.Now())
+	}
 	for _, f := range w.onHandler {
 		f(c, e)
 	}
